@@ -254,9 +254,9 @@ def check_case(ctx, case, only=None):
                 near_axis = False
                 if s["cls"] in ("Cylinder", "CylinderSegment"):
                     ro = s["dimension"][1] if s["cls"] == "CylinderSegment" else s["dimension"][0] / 2
-                    near_axis = bool(np.hypot(pl[0], pl[1]) < 0.05 * ro)
+                    near_axis = bool(np.hypot(pl[0], pl[1]) < 0.1 * ro)
                 ctx.violation({"kind": "field!=first-principles", "cls": s["cls"], "field": F, "region": reg,
-                               "near_axis_r<0.05r2": near_axis},
+                               "near_axis_r<0.1r2": near_axis},
                               {"source": s, "observers": [case["observers"][i]], "regions": [reg]},
                               {"lib": lib, "ref": ref, "err": d, "allowed": allowed, "local": pl, "oracle": info,
                                "rel": d / (np.linalg.norm(ref) + 1e-300)})
